@@ -23,13 +23,13 @@ MANIFEST = dict(
           'item sequences, matching does not depend on || levels (|| -> | leaves `matched` unchanged), every offered candidate '
           'carries one level (the lowest that has a candidate extending the prefix) and extends the typed prefix, the '
           'word-break stripping lemmas, and the decided domain C01_domain implies its declarative reading at every point the '
-          'specification visits (C01_domain_sound, C01_domain_along_runs). About the script itself: C01_bash_meaning_mixed proves that '
+          'specification visits (C01_domain_sound, C01_domain_along_runs). About the script itself: C01_bash_meaning proves that '
           'BashSem.run_from Repaired (the interpreter of the /repo HEAD script, within-word functions included) on '
-          'Tables.all_tables Bash (Driver.compile_valid v) returns the status and, as sets, the required candidates of '
-          'Meaning.complete (required included in allowed) for every validated tree whose leaves are literals, commands, undefined '
-          'nonterminals and within-word expressions made of literals, on C01_domain outside ambiguous_run (two side conditions on '
-          'the compiled automaton with decidable sufficient forms: C01_subword_side_conditions); commands and undefined '
-          'nonterminals inside words are only stated (C01_bash_meaning_statement). The implementation is judged directly: the extracted Meaning.complete against the emitted '
+          'Tables.all_tables Bash (Driver.compile_valid v) returns the status of Meaning.complete and required <= reply <= allowed '
+          'for every validated tree (literals, commands, undefined nonterminals, within-word expressions over the same pieces) on '
+          'C01_domain/C01_env_ok outside ambiguous_run and outside the known mechanism KnownC01.greedy_shadow, for COMP_WORDBREAKS '
+          'default and empty (C01_bash_meaning_wordbreaks); side conditions on the compiled automaton and the literal orders have '
+          'decidable sufficient forms (C01_subword_side_conditions). The implementation is judged directly: the extracted Meaning.complete against the emitted '
           'script in real bash 5.2 on generated grammars inside the decided domain C01_domain (exhaustive small trees + seeded '
           'random grammars with definitions, descriptions, three || levels, within-word expressions, [], ...) x residual-set '
           'paths x prefixes x COMP_WORDBREAKS in {default, empty}; deviations are attributed to mechanism classes '
@@ -60,7 +60,7 @@ def case_stream(ctx):
         pr = mspec.Probes()
         yield ('witness:' + cls, mk(pr), pr, [(ws, p)])
     # same-shaped within-word expressions with different accepting sets: always, with all their queries
-    for st, pr, qs in mspec.shape_family() + mspec.greedy_family():
+    for st, pr, qs in mspec.shape_family() + mspec.greedy_family() + mspec.descr_family() + mspec.level_shape_family():
         yield ('targeted', [mspec.normalize_stmt(x) for x in st], pr, list(qs))
     # the targeted family: the pairs of item kinds: a seed-determined third in the quick tier, all otherwise; the others always
     pairs, others = mspec.targeted_family()
@@ -178,6 +178,8 @@ def prepare(ctx, exe, chunk, counters, nq, maxlen, ties):
             counters['model_error'] += 1
             continue
         dv = sexp.parse(dl)
+        if len(dv) > 2 and dv[2] != '1':
+            counters['accepted_but_nonterminal_not_last_in_word'] += 1
         if dv[0] != '1' or dv[1] != '1':
             counters['outside_C01_domain'] += 1
             if c[0].startswith('witness'):
@@ -269,7 +271,7 @@ def single_text(exe, text, outs, ws, pre, wb):
     e = sexp.dump(sexp.parse(ml)[2])
     lines = model.run(['domain %s %s' % (e, mspec.env_sx(outs)),
                        mspec.meaning_request(e, outs, mspec.DEFAULT_WB if wb is None else wb, [(ws, pre)])])
-    if lines[0] != '(1 1)' or lines[1].startswith('(drivererror'):
+    if not lines[0].startswith('(1 1') or lines[1].startswith('(drivererror'):
         return None
     spec, flags = mspec.parse_meaning(lines[1])[0]
     if flags['ambiguous']:
@@ -382,6 +384,8 @@ CLASS_OF = {'piece_boundary': 'within_word_accepts_at_piece_boundary', 'last_wor
 def run(ctx, res):
     with build.Lock():
         exe = build.harness()
+    from . import e2e
+    e2e.capstone_obligations(res, 'C01_')      # from the grammar TEXT: Props/Capstone.v C01_compile_bash_meaning
     if ctx.get('replay'):
         replay_file(exe, ctx['replay'], res)
         res.rule = 'replay of one recorded case'
@@ -391,7 +395,7 @@ def run(ctx, res):
     nq = 8 if quick else 24
     maxlen = 3 if quick else 5
     chunk_size = 32 if quick else 96
-    counters = dict(t1_check_disagreements=0, crashed=0, rejected_by_complgen=0, outside_C01_domain=0, model_error=0, ambiguous_queries=0,
+    counters = dict(t1_check_disagreements=0, crashed=0, rejected_by_complgen=0, outside_C01_domain=0, accepted_but_nonterminal_not_last_in_word=0, model_error=0, ambiguous_queries=0,
                     grammars_run=0, targeted_run=0, exhaustive_run=0, random_run=0, rc1_expected=0, nonempty_required=0,
                     fallback_grammars=0, subword_grammars=0, command_grammars=0, anyword_grammars=0,
                     empty_wordbreaks_queries=0, chunks=0)
